@@ -175,17 +175,17 @@ impl Gates {
     }
 }
 
-fn emit(kind: &'static str, a: u64, b: u64) {
+pub(crate) fn emit(kind: &'static str, a: u64, b: u64) {
     servlin::verif::emit(kind, a, b);
 }
-fn count(kind: &str) -> usize {
+pub(crate) fn count(kind: &str) -> usize {
     servlin::verif::snapshot().iter().filter(|r| r.kind == kind).count()
 }
 /// The accept loop is parked in `accept()` (it holds a token and waits for a connection).
 fn accept_loop_accepting() -> bool {
     servlin::verif::snapshot().iter().rev().find(|r| r.kind.starts_with("Acc")).map_or(false, |r| r.kind == "AccAccepting")
 }
-fn wait_until(deadline_s: u64, f: impl Fn() -> bool) -> bool {
+pub(crate) fn wait_until(deadline_s: u64, f: impl Fn() -> bool) -> bool {
     let deadline = Instant::now() + Duration::from_secs(deadline_s);
     while !f() {
         if Instant::now() > deadline {
@@ -476,122 +476,3 @@ pub fn run_stress(args: &Args, mut out: Out) {
 
 #[allow(dead_code)]
 fn unused(_: HashMap<u8, u8>, _: Value) {}
-
-// ------------------------------------------------------------------------------ permit-race
-/// C13: a connection accepted exactly while the permit is being revoked.  `accept_loop` is run with a handler that
-/// keeps the connection's permit and token; a spinning thread revokes the server's permit as soon as the hook log
-/// shows `AccAccepted` (emitted immediately before the connection's sub-permit is created).  Once the revocation has
-/// returned, a permit that was handed to a connection must be revoked -- otherwise that connection would go on
-/// serving requests for ever.  The first `full` trials are recorded event by event (the whole hook log plus the
-/// harness's connect / revoke / connection begin / end) and judged by ServerSteps!Apply like any server run; of the
-/// others only a missed revocation is recorded.
-pub fn run_permit_race(args: &Args, mut out: Out) {
-    let trials = args.u64("trials", 20_000);
-    let full = args.u64("full", 300);
-    let loops = args.usize("loops", 6); // accept loops sharing the permit in the trials that are not recorded in full
-    safina::timer::start_timer_thread();
-    let executor = safina::executor::Executor::new(loops.max(2), 2).unwrap();
-    let mut missed = 0u64;
-    let mut handled = 0u64;
-    let mut stuck = 0u64; // trials in which an accept loop had not left 2 s after the revocation returned
-    for t in 1..=trials {
-        if !out.wants(t) {
-            continue;
-        }
-        if stuck >= 8 {
-            break; // the point is made; every further trial would cost another 2 s
-        }
-        let nloops = if t <= full { 1 } else { loops };
-        servlin::verif::start();
-        let top = permit::Permit::new();
-        let slot: Arc<Mutex<Vec<(permit::Permit, Token, u16, async_net::TcpStream)>>> = Arc::new(Mutex::new(vec![]));
-        let mut addrs = vec![];
-        for _ in 0..nloops {
-            let slot2 = slot.clone();
-            let listener = executor.block_on(servlin::internal::listen_127_0_0_1_any_port()).unwrap();
-            addrs.push(listener.local_addr().unwrap());
-            let handler = move |sub: permit::Permit, token: Token, stream: async_net::TcpStream, peer: std::net::SocketAddr| {
-                emit("ConnBegin", u64::from(peer.port()), 0);
-                slot2.lock().unwrap().push((sub, token, peer.port(), stream));
-            };
-            executor.spawn(servlin::internal::accept_loop(top.new_sub(), listener, TokenSet::new(1), handler));
-        }
-        let delay = (t % 64) as u32 * 4; // sweep the alignment of the revocation with the creation of the sub-permit
-        let revoker = std::thread::spawn(move || {
-            // "the harness is about to drop the permit" is logged before the spinning starts, so that nothing (no
-            // mutex hand-off for the log) sits between the detection and the drop
-            emit("RevokeBegin", 0, 0);
-            let deadline = Instant::now() + Duration::from_secs(2);
-            loop {
-                if servlin::verif::snapshot().iter().any(|r| r.kind == "AccAccepted") || Instant::now() > deadline {
-                    for _ in 0..delay {
-                        std::hint::spin_loop();
-                    }
-                    drop(top);
-                    emit("RevokeDone", 0, 0);
-                    return;
-                }
-                std::hint::spin_loop();
-            }
-        });
-        let mut clients = vec![];
-        for addr in &addrs {
-            emit("ClientConnect", 0, 0);
-            clients.push(std::net::TcpStream::connect_timeout(addr, Duration::from_millis(500)));
-        }
-        revoker.join().unwrap();
-        // the revocation has returned; wait until every accept loop has left
-        let left = wait_until(2, || count("AccRevokedExit") + count("AccRevokedInWait") + count("AccRevokedAfterAccept") >= nloops);
-        if !left {
-            stuck += 1;
-        }
-        std::thread::sleep(Duration::from_micros(100));
-        let taken: Vec<(permit::Permit, Token, u16, async_net::TcpStream)> = std::mem::take(&mut *slot.lock().unwrap());
-        let mut miss = false;
-        let mut streams = vec![];
-        for (sub, token, port, stream) in taken {
-            handled += 1;
-            miss |= !sub.is_revoked();
-            emit("ConnEnd", u64::from(port), 0);
-            drop(token);
-            streams.push(stream);
-        }
-        // the clients close first and with a reset (SO_LINGER 0): no socket is left in TIME_WAIT, so tens of thousands
-        // of trials do not run out of ephemeral ports
-        for c in clients.into_iter().flatten() {
-            use std::os::fd::AsRawFd;
-            let lg = libc::linger { l_onoff: 1, l_linger: 0 };
-            unsafe {
-                libc::setsockopt(c.as_raw_fd(), libc::SOL_SOCKET, libc::SO_LINGER, std::ptr::addr_of!(lg).cast(), std::mem::size_of::<libc::linger>() as u32);
-            }
-            drop(c);
-        }
-        drop(streams);
-        wait_until(1, || count("TokenReturn") >= count("ConnEnd") + count("AccRevokedExit") + count("AccRevokedAfterAccept"));
-        let recs = servlin::verif::take();
-        if miss {
-            missed += 1;
-        }
-        if !left {
-            out.ev(t, "Reset", json!({"max": 1, "clients": nloops, "refill": false}));
-            out.ev(t, "StopTimeout", json!({"a": 0, "b": 0}));
-        } else if t <= full {
-            out.ev(t, "Reset", json!({"max": 1, "clients": 1, "refill": false}));
-            for rec in recs {
-                out.ev(t, rec.kind, json!({"a": rec.a, "b": rec.b, "seq": rec.seq}));
-            }
-            if miss {
-                out.ev(t, "PermitMissedRevocation", json!({"a": 0, "b": 0}));
-            }
-            out.ev(t, "Quiesce", json!({"a":0,"b":0,"aborted": []}));
-        } else if miss {
-            // (several accept loops share one log in these trials: only the observation itself is recorded)
-            out.ev(t, "Reset", json!({"max": 1, "clients": nloops, "refill": false}));
-            out.ev(t, "PermitMissedRevocation", json!({"a": 0, "b": 0}));
-        }
-    }
-    eprintln!("trials={trials} connections handed to a handler={handled} whose permit was never revoked={missed}");
-    out.ev(trials + 1, "Reset", json!({"max": 1, "clients": 0, "refill": false}));
-    out.ev(trials + 1, "PermitRaceSummary", json!({"a": trials, "b": missed, "handled": handled}));
-    out.finish();
-}
